@@ -264,7 +264,7 @@ def sub_event_alias(inp):
     e1, e2 = p1.pattern.behaviour, p2.pattern.behaviour
     if e1.predicate != e2.predicate:
         raise Violation('event_alias', 'stored-predicate', inp, f'`{topic} as {alias} {{f}}` stores {e1.predicate}, the alias-free spelling stores {e2.predicate}')
-    if astx.mentions_var(e1.predicate, alias):
+    if alias in astx.free_refs(e1.predicate):  # an occurrence bound by a quantifier of the same name is not the alias
         raise Violation('event_alias', 'alias-left', inp, f'stored predicate still mentions @{alias}: {e1.predicate}')
     refs = e1.external_references()
     if alias in refs:
